@@ -183,6 +183,8 @@ def gen_compile_op(rng, tier):
         op = {'op': 'compile', 'modules': {}, 'corpus': [cname], 'requested': [mname], 'codegen': 'pysnmp' if rng.random() < 0.1 else 'json', 'options': {}}
         if rng.random() < 0.4:
             op['options']['genTexts'] = True
+        if rng.random() < 0.3:
+            op['options']['keepLayout'] = True
         return op
     n = rng.choice([1, 2, 2, 3])
     specs = mibgen.gen_modules(rng, n, cycles=rng.random() < 0.3, defects=rng.choice([0.0, 0.0, 0.3]), smiv1=0.2, identity=0.6, oiddefval=0.15)
@@ -193,7 +195,7 @@ def gen_compile_op(rng, tier):
             sp['dupobj'] = True
             sp['compliance'] = True
     op = {'op': 'compile', 'modules': specs, 'requested': [sorted(specs)[-1]], 'codegen': 'pysnmp' if rng.random() < 0.06 else 'json', 'options': {}}
-    for name, p in (('genTexts', .3), ('ignoreErrors', .5), ('noDeps', .15), ('rebuild', .1)):
+    for name, p in (('genTexts', .3), ('ignoreErrors', .5), ('noDeps', .15), ('rebuild', .1), ('keepLayout', .2)):
         if rng.random() < p:
             op['options'][name] = True
     if rng.random() < 0.15:
@@ -215,6 +217,15 @@ def generate(rng, tier):
             ops.append({'op': 'parse', 'dialect': rng.choice(hs.DIALECTS), 'bad': rng.choice(sorted(hs.BAD_TEXTS))})
         elif r < 0.6:
             ops.append({'op': 'parse', 'dialect': rng.choice(hs.DIALECTS), 'file': rng.randrange(nfiles)})
+            t_ = rng.random()
+            if t_ < 0.3:
+                ops[-1]['tail'] = 'comment'
+            elif t_ < 0.6:
+                ops[-1]['tail'] = 'first-line'
+        elif r < 0.66:
+            ops.append({'op': 'read', 'name': rng.choice(['FOO-MIB', 'foo-mib', 'FOO', 'BAR', 'Bar-Mib']),
+                        'omit': sorted(rng.sample(sorted(hs.READ_TREE), rng.choice([0, 0, 1, 2]))),
+                        'ropts': rng.choice([{}, {}, {'fuzzyMatching': False}, {'lowcaseMatching': False}])})
         elif r < 0.92:
             ops.append(gen_compile_op(rng, tier))
         else:
